@@ -409,8 +409,27 @@ func init() {
 				},
 				Required: []string{"solvency.states_with_claimable_rewards", "stake.arrived_during_warmup_of_recreated_asset"},
 			}
+			// a governance weight change between allocations and claims (weight-change snapshots are replayed by every later
+			// claim of a position that has a reward history already)
+			wc := mk("c12-weight-change", mid, rw("1000000"), []string{"500000"}, tierPick(tier, []int{2, 0, 2, 2, 1}, []int{3, 1, 3, 3, 2}), tierPick(tier, 6, 8))
+			wc.Seeds = [][]world.Op{append(append([]world.Op{}, mid...), opReward("stake", "1000000"), world.Op{K: world.KClaim, D: 0, V: 0, Denom: "aaa"}, opBlock(1))}
+			wcBase := wc.Ops
+			wc.Ops = func(n *engine.Node) []world.Op {
+				var out []world.Op
+				for _, o := range wcBase(n) {
+					if o.K == world.KClaim || o.K == world.KBlock || (o.K == world.KReward && o.Denom == "stake") {
+						out = append(out, o)
+					}
+				}
+				if a, ok := n.Snap().Assets["aaa"]; ok {
+					out = append(out, world.Op{K: world.KGovUpdate, Denom: "aaa", Class: ClsGov, Args: govArgs("authority", "2", "0,5", a.TakeRate.String(), "1", 0, false)})
+				}
+				return out
+			}
+			wc.Required = []string{"solvency.states_with_claimable_rewards", "reward.allocations"}
 			if tier == "thorough" {
 				return []*engine.Scenario{
+					wc,
 					recreated,
 					unionFull,
 					removed,
@@ -420,6 +439,7 @@ func init() {
 				}
 			}
 			return []*engine.Scenario{
+				wc,
 				recreated,
 				unionFull,
 				removed,
